@@ -183,6 +183,11 @@ func build(es []entry, rng *vh.Rng) *gostatsd.MetricMap {
 				vals = []float64{-1, 0, 2.5}
 			case "two-inf":
 				vals = []float64{math.Inf(1), math.Inf(-1)}
+			case "many-same": // a very repetitive batch: it compresses a thousand times
+				vals = make([]float64, 4000)
+				for i := range vals {
+					vals[i] = 1.5
+				}
 			}
 			cnt := float64(len(vals))
 			switch fmt.Sprint(e.Cnt) {
@@ -190,6 +195,8 @@ func build(es []entry, rng *vh.Rng) *gostatsd.MetricMap {
 				cnt = 10
 			case "frac":
 				cnt = 3.3333333333333335
+			case "zero": // a timer whose sampled count was never set
+				cnt = 0
 			}
 			if mm.Timers[e.Name] == nil {
 				mm.Timers[e.Name] = map[string]gostatsd.Timer{}
@@ -304,7 +311,11 @@ func TestCases(t *testing.T) {
 					}
 					// only damage that is certain to make the body unreadable: a truncated zlib stream, a prefix that is neither a
 					// zlib header, an lz4 magic nor a protobuf tag (field 1 with the invalid wire type 7), an unknown encoding
-					switch k := rng.Intn(5); {
+					switch k := rng.Intn(6); {
+					case k == 5 && (h.Get("Content-Encoding") == "" || h.Get("Content-Encoding") == "identity"):
+						// a complete message followed by a tag with the invalid wire type 7: undecodable whatever came before it,
+						// and nothing of what came before it may be dispatched, now or with a later request
+						return append(append([]byte(nil), b...), 0x0f)
 					case k == 4 && len(b) > 8:
 						enc := h.Get("Content-Encoding")
 						h.Set("X-Verif-Cut", strconv.Itoa(cutPoint(b, enc == "" || enc == "identity")))
